@@ -109,6 +109,27 @@ namespace hv
     };
 
     // Self-scheduling counter: emits 0,1,2.. every `period` steps, `count` times, first at start.
+    // side-effecting node with NO time-series input and NO output (a heartbeat): scheduler-driven, logs every beat
+    struct VBeacon
+    {
+        static constexpr auto name = "v_beacon";
+        static void start(NodeScheduler sched, State<Int> n, Scalar<"uid", Int> uid, Scalar<"period", Int> period,
+                          Scalar<"count", Int> count, NodeView nv, DateTime now)
+        {
+            user_start(uid.value(), nv, now);
+            n.set(Int{0});
+            if (count.value() > 0) sched.schedule(now);
+        }
+        static void stop(Scalar<"uid", Int> uid, NodeView nv, DateTime now) { user_stop(uid.value(), nv, now); }
+        static void eval(NodeScheduler sched, State<Int> n, Scalar<"uid", Int> uid, Scalar<"period", Int> period,
+                         Scalar<"count", Int> count, NodeView nv, DateTime now)
+        {
+            Int v = n.get();
+            n.set(v + 1);
+            if (v + 1 < count.value()) sched.schedule(MIN_TD * period.value());
+            log_eval(uid.value(), nv, now, v);
+        }
+    };
     struct VTicker
     {
         static constexpr auto name = "v_ticker";
